@@ -156,6 +156,8 @@ func TestC07(t *testing.T) {
 	forCases(n/20, 1073, "e", func(i int, r *rng, id string) { c07Chan(r, id) })
 	// target selection on concurrent ticks must not disturb the listed set (no change of Members() without an event)
 	forCases(12, 1074, "y", func(i int, r *rng, id string) { stirLeg("C07", r, id) })
+	// the start-up window: a packet handled between the start of the listeners and the node recording itself
+	forCases(12, 1075, "b", func(i int, r *rng, id string) { c07Boot(r, id) })
 }
 
 // C08: address conflicts / reclaim / departures: the non-local table plus random histories.
